@@ -48,6 +48,15 @@ def _mutate(name):
                 encode = self.__dict__['_encode'] = codecs.getincrementalencoder(self.encoding or 'utf-8')().encode
             return encode(result)
         zt.PageTextTemplateFile.render = render
+    elif name == 'digest_without_class':
+        from chameleon import template as ct
+        src_fn = ct.BaseTemplate.digest
+        code = textwrap.dedent(inspect.getsource(src_fn))
+        new = code.replace("sha.update(class_name)", "pass")
+        assert new != code
+        ns = src_fn.__globals__
+        exec('from __future__ import annotations\n' + new, ns)
+        ct.BaseTemplate.digest = ns['digest']
     elif name == 'dollar_kept':
         src_fn = zp.MacroProgram.visit_text
         code = textwrap.dedent(inspect.getsource(src_fn)).replace("node = node.replace('$$', '$')", "node = node")
@@ -85,7 +94,13 @@ def prepare(cfg):
                        for p in shape)
         STATE['shape'] = shape
         try:
-            STATE['tpl'] = PageTextTemplate(text)
+            if cfg.get('shared_cache'):
+                # the same source compiled as a markup template first, both through one on-disk module cache
+                from chameleon import PageTemplate
+                from vlib.cachepair import compile_through_one_cache
+                STATE['tpl'] = compile_through_one_cache([(PageTemplate, text, {}), (PageTextTemplate, text, {})])[1]
+            else:
+                STATE['tpl'] = PageTextTemplate(text)
         except Exception as exc:      # a valid text template must compile: counted as failure of every input
             STATE['tpl'] = None
             STATE['compile_error'] = repr(exc)[:300]
